@@ -69,6 +69,22 @@ def check_loop(ctx, rep):
     accepts = [node(stmt_of(c)) for c in method_calls(main, 'accept') if isinstance(c.func.value, ast.Name) and c.func.value.id == op]
     rejects = [node(stmt_of(c)) for c in method_calls(main, 'reject') if isinstance(c.func.value, ast.Name) and c.func.value.id == op]
     facts = {'operator_variable': op, 'hastings_variable': H, 'accept_sites': [n.stmt.lineno for n in accepts], 'reject_sites': [n.stmt.lineno for n in rejects]}
+    # L0 the operator variable is bound once per iteration: accept/reject/tune act on the operator that moved
+    op_defs = []
+    for n in ast.walk(main):
+        if isinstance(n, ast.Assign) and any(isinstance(t, ast.Name) and t.id == op for t in n.targets):
+            op_defs.append(n)
+        elif isinstance(n, (ast.For, ast.comprehension)) and any(isinstance(x, ast.Name) and x.id == op for x in ast.walk(n.target)):
+            if isinstance(n, ast.For):
+                op_defs.append(n)
+        elif isinstance(n, ast.With) and any(isinstance(i.optional_vars, ast.Name) and i.optional_vars.id == op for i in n.items):
+            op_defs.append(n)
+    uses_after = [c for nm in ('accept', 'reject', 'tune') for c in method_calls(main, nm) if isinstance(c.func.value, ast.Name) and c.func.value.id == op]
+    ok0 = len(op_defs) == 1 and cfg.dominates(cfg.node_of(op_defs[0]), step_node)
+    rep.check('C15.L', 'MCMC.run::operator-bound-once-per-iteration', ok0, where(m, op_defs[1] if len(op_defs) > 1 else fn),
+              {'definitions': [d.lineno for d in op_defs], 'uses': [c.lineno for c in uses_after]},
+              f"the variable `{op}` is re-bound inside the iteration (lines {[d.lineno for d in op_defs]}): accept()/reject()/tune() after that "
+              f"act on a different operator than the one that proposed the move")
     # L1 exactly one of accept/reject on every path from step to the end of the iteration
     ok = bool(accepts) and bool(rejects) and cfg.must_pass(step_node, header, accepts + rejects)
     rep.check('C15.L', 'MCMC.run::accept-or-reject-on-every-path', ok, W, facts,
@@ -420,6 +436,52 @@ def check_hastings(ctx, rep):
         f_names, b_names = direct(fexp), direct(bexp)
         b_all = set().union(*[names_in(x) for x in backward_slice(bexp, defs)])
         ok = bool(draws & f_names) and not (draws & b_names) and bool(oldg & b_all)
+    # forward quantities use the proposed precision matrix throughout, backward quantities the previous one
+    prec_store = None
+    for st in fn.body:
+        if isinstance(st, ast.Assign) and isinstance(st.targets[0], ast.Attribute) and st.targets[0].attr == 'tensor' \
+                and 'precision' in ast.unparse(st.targets[0]):
+            prec_store = st
+    pm_defs = [st for st in fn.body if isinstance(st, ast.Assign) and isinstance(st.targets[0], ast.Name)
+               and isinstance(st.value, ast.Call) and isinstance(st.value.func, ast.Attribute) and st.value.func.attr == 'precision_matrix']
+    pair_ok = False
+    pair_facts = {}
+    if prec_store is not None and len(pm_defs) == 2:
+        old_pm = [d.targets[0].id for d in pm_defs if fn.body.index(d) < fn.body.index(prec_store)]
+        new_pm = [d.targets[0].id for d in pm_defs if fn.body.index(d) > fn.body.index(prec_store)]
+        nr = [c for c in ast.walk(fn) if isinstance(c, ast.Call) and self_attr(c.func) == 'newton_raphson']
+        clones = {st.targets[0].id: st.value.func.value.id for st in fn.body if isinstance(st, ast.Assign) and isinstance(st.targets[0], ast.Name)
+                  and isinstance(st.value, ast.Call) and isinstance(st.value.func, ast.Attribute) and st.value.func.attr == 'clone'
+                  and isinstance(st.value.func.value, ast.Name) and st.value.func.value.id in old_pm + new_pm}
+        # which mode feeds which QW: diagonal1 = … exp(-mode) ; QW[...] += diagonal1
+        mode_of_qw = {}
+        cur_mode = None
+        for st in ast.walk(fn):
+            pass
+        seq = [st for st in ast.walk(fn) if isinstance(st, (ast.Assign, ast.AugAssign))]
+        seq.sort(key=lambda s_: s_.lineno)
+        last_mode_in_diag = None
+        mode_vars = {}
+        for c in nr:
+            st = c
+            while not isinstance(st, ast.stmt):
+                st = st._parent
+            if isinstance(st, ast.Assign) and isinstance(st.targets[0], ast.Name) and len(c.args) == 4 and isinstance(c.args[3], ast.Name):
+                mode_vars[st.targets[0].id] = c.args[3].id
+        for st in seq:
+            if isinstance(st, ast.Assign) and isinstance(st.targets[0], ast.Name):
+                used = {n.id for n in ast.walk(st.value) if isinstance(n, ast.Name)} & set(mode_vars)
+                if used and any(isinstance(c, ast.Call) and (dotted_name(c.func) or '').endswith('exp') for c in ast.walk(st.value)):
+                    last_mode_in_diag = (st.targets[0].id, sorted(used)[0])
+            if isinstance(st, ast.AugAssign) and isinstance(st.target, ast.Subscript) and isinstance(st.target.value, ast.Name) \
+                    and st.target.value.id in clones and last_mode_in_diag and isinstance(st.value, ast.Name) and st.value.id == last_mode_in_diag[0]:
+                mode_of_qw[st.target.value.id] = last_mode_in_diag[1]
+        pair_facts = {'previous_precision_matrix': old_pm, 'proposed_precision_matrix': new_pm, 'newton_raphson_matrix': mode_vars, 'QW_cloned_from': clones, 'mode_of_QW': mode_of_qw}
+        pair_ok = len(mode_of_qw) == 2 and all(mode_vars.get(mode_of_qw[qw]) == clones[qw] for qw in mode_of_qw) \
+            and {clones[qw] for qw in mode_of_qw} == set(old_pm + new_pm)
+    rep.check('C15.Q', 'GMRFBlockUpdate::forward-and-backward-use-their-own-precision', pair_ok, where(gm.module, fn), pair_facts,
+              "the Newton-Raphson mode that enters a proposal precision (forwardQW / backwardQW) must be computed with the same precision matrix that the QW is cloned from "
+              "(proposed matrix for the forward density, previous matrix for the reverse density); otherwise the returned term is not log q(old|new) − log q(new|old)")
     rep.check('C15.Q', 'GMRFBlockUpdate::hastings', ok, where(gm.module, fn), None,
               "block update must return log q(reverse) − log q(forward): forward term from the Gaussian draw, reverse term from the previous field")
 
@@ -729,6 +791,32 @@ def run(ctx, rep):
     rep.rule('C15.A', "composition (adaptable value → tuned attribute → proposal spread) is increasing for every operator; tune/learn add +(acceptance − target)/positive")
     rep.assumptions += ["a Dirichlet proposal is more concentrated for a larger concentration multiplier; a larger integrator step size is a bolder proposal"]
     rep.not_decided += ["stationarity statistically", "logger row consistency at run time (implied by C11 wiring)", "HMC Hastings term (C16.K)"]
+    # the HMC operator's Hastings term (kinetic-energy change, momentum draw ↔ kinetic energy pair) is decided by the
+    # C16.K rules; they are part of this property too
+    try:
+        from props import c16
+
+        class Proxy:
+            def __init__(self, rep):
+                self._rep = rep
+
+            def __getattr__(self, name):
+                return getattr(self._rep, name)
+
+            def check(self, rule, key, cond, *a, **k):
+                return self._rep.check('C15.Q', 'HMC::' + key, cond, *a, **k)
+
+            def bad(self, rule, key, *a, **k):
+                return self._rep.bad('C15.Q', 'HMC::' + key, *a, **k)
+
+            def ok(self, rule, key, *a, **k):
+                return self._rep.ok('C15.Q', 'HMC::' + key, *a, **k)
+
+            def undecided(self, rule, key, *a, **k):
+                return self._rep.undecided('C15.Q', 'HMC::' + key, *a, **k)
+        c16.check_operator(ctx, Proxy(rep))
+    except Unsupported as u:
+        rep.undecided('C15.Q', 'HMC::check_operator', f"line {getattr(u.node, 'lineno', 0)}", str(u))
     for fn in (check_loop, check_save_restore, check_hastings, check_tuning):
         try:
             fn(ctx, rep)
